@@ -106,12 +106,16 @@ def _key_tok(kt, i):
     if d == 6:
         return ("nil", "nil") if n == 0 else ("uint8", str(n % 256))
     if d == 7:
-        return ("bool", str(n % 2))
+        if n < 2:
+            return ("bool", str(n))
+        return ("complex64", CPLX[n % 8])     # complex keys: both parts compare as floats (+0 = -0)
     if d == 8:
         return {0: ("wrap/[]int", "0"), 1: ("wrap/float64", "+0"), 2: ("wrap/float64", "-0"),
                 3: ("wrap/float64", "NaN")}.get(n, ("wrap/int", str(n)))
     return {0: ("[]int", "0"), 1: ("map[int]int", "0"), 2: ("func()", "0")}.get(n, ("int32", str(n)))
 
+
+CPLX = ["+0,+0", "-0,+0", "+0,-0", "-0,-0", "1,+0", "1,-0", "+0,2", "-0,2"]
 
 UNHASHABLE = {"[]int", "map[int]int", "func()", "wrap/[]int"}
 
@@ -136,6 +140,10 @@ def parse_key(tok, p, dyn=False):
         if not t.startswith("a"):
             return ("?", t), p + 1
         t = t[1:]
+        if t == "C":
+            def part(bits):
+                return {0: "+0", 1 << 31: "-0", 0x3f800000: "1", 0x40000000: "2"}.get(bits, "b%08x" % bits)
+            return ("complex64", "%s,%s" % (part(int(tok[p + 1])), part(int(tok[p + 2])))), p + 3
         if t in ("L", "J", "B", "Z"):
             return ({"L": "int64", "J": "int32", "B": "uint8", "Z": "bool"}[t], str(int(tok[p + 1]))), p + 2
         if t == "W":
@@ -157,6 +165,9 @@ def parse_key(tok, p, dyn=False):
 
 
 def kj(k):
+    if k[0] == "complex64":
+        re_, im_ = k[1].split(",")
+        return {"ty": k[0], "x": k[1], "re": re_, "im": im_}
     return {"ty": k[0], "x": k[1]}
 
 
@@ -180,6 +191,7 @@ UNIVERSES = {
     "int": [(0, [4, 5, 6]), (1, [4, 5, 6]), (4, [4, 5, 6]), (5, [4, 5, 6])],   # three plain distinct keys, replayed on 4 key types
     "f64": [(2, [0, 1, 2])],                                                  # +0, -0, NaN
     "any": [(3, [10, 11, 9])],                                                # any(int(1)), any(int64(1)), any([]int)
+    "anyc": [(3, [27, 37, 47])],                                               # any(complex64(+0,-0)), any(complex64(-0,-0)), any(complex64(1,+0))
     "anyf": [(3, [13, 18, 8])],                                               # any(-0.0), any(wrap{+0.0}), any(wrap{[]int})
 }
 
@@ -383,7 +395,7 @@ class Gen:
         self.emit("E")
 
 
-PROFILES = ("mixed", "grow", "churn", "nan", "clearloop")     # + "big" (thorough only)
+PROFILES = ("mixed", "grow", "churn", "nan", "clearloop")     # + "wipe" (planned explicitly), "big" (thorough only)
 
 
 def gen_random(rng, profile, kt, vt, length, tag):
@@ -422,6 +434,35 @@ def gen_random(rng, profile, kt, vt, length, tag):
                 g.op((70, 8, 17, 3, 0, 0, 0), 0)
             else:
                 g.op((10, 65, 20, 3, 0.3, 0, 0), 0)
+    elif profile == "wipe":
+        # fill to just below a growth threshold (long overflow chains), then delete every key in random order while
+        # looking up keys that are still there: a delete must not make the rest of a bucket chain unreachable
+        B = r.choice([5, 6, 7]) if length < 4000 else r.choice([7, 8, 9])
+        size = 6 * (1 << B) - r.choice([0, 1])
+        g = Gen(r, kt, vt, 1 << 30, nan_budget=0)
+        g.emit("M 0")
+        g.nil = False
+        while len(g.present) < size:
+            g.ins(1.0)
+        order = list(g.present)
+        r.shuffle(order)
+        alive = set(order)
+        for n, k in enumerate(order):
+            g.emit("D %d" % k)
+            alive.discard(k)
+            if alive and n % 3 == 0:
+                probe_k = order[r.randrange(n + 1, len(order))] if n + 1 < len(order) else k
+                g.emit("G %d" % probe_k)
+            if n % 97 == 0:
+                g.emit("L")
+            if alive and n in (len(order) // 3, 2 * len(order) // 3):
+                # re-assign what is left: a key that can no longer be found would be entered a second time
+                for k2 in sorted(alive)[:200]:
+                    g.ctr += 1
+                    g.emit("I %d %d" % (k2, g.ctr))
+                g.emit("L")
+        g.present, g.pset = [], set()
+        g.emit("L")
     elif profile == "churn":
         # stay just below a growth threshold and replace entries: chains get overflow buckets -> same-size growth
         # (llgo's map.go grows at count+1 > 6*2^B; upstream Go at 6.5*2^B: 6*2^B - {0,1} is below both)
@@ -778,6 +819,7 @@ def build_plan(rng, thorough):
                         if prof == "churn":
                             ln = rng.choice([1500, 3000, 6000])
                         plan.append((prof, kt, vt, ln))
+        plan += [("wipe", kt, vt, ln) for kt in range(6) for vt in (0, 1) for ln in (3000, 6000)]
         plan += [("big", 0, 1, 7000), ("big", 1, 0, 5000), ("big", 3, 2, 5000), ("big", 2, 1, 3000), ("big", 4, 2, 3000),
                  ("big", 5, 0, 3000)]
     else:
@@ -799,6 +841,9 @@ def build_plan(rng, thorough):
             plan.append(("nan", kt, 0, 150))
         plan.append(("grow", 0, 1, 3000))
         plan.append(("grow", 3, 2, 2000))
+        plan.append(("wipe", 0, 1, 3000))
+        plan.append(("wipe", 1, 0, 3000))
+        plan.append(("wipe", 3, 1, 3000))
     return plan
 
 
@@ -949,7 +994,7 @@ def check(chk):
             r2 = random.Random(sd * 31 + kt)
             if exh_cap is None:
                 # thorough: the +0/-0/NaN and the mixed-dynamic-type universes completely; seeded samples of the others
-                cap = {"f64": None, "any": None, "anyf": 20000}.get(u, 30000 if kt == 0 else 10000)
+                cap = {"f64": None, "any": None, "anyf": 20000, "anyc": 20000}.get(u, 30000 if kt == 0 else 10000)
                 if cap is not None:
                     sel = sorted(r2.sample(names, min(len(names), cap)))
             if exh_cap is not None:
